@@ -46,4 +46,16 @@ def handle (j : Json) : R Json := do
   return jObj [("prefixes", Json.arr js.toArray), ("tripsCsv", jStr (tripsCsv full)),
                ("stopTimesCsv", jStr (stopTimesCsv full))]
 
+/-- directory source: names with the id (a feed's createdAt) each yields, null when unreadable or
+    unparseable; the model predicts the sequence of ids `Next` yields -/
+def handleDir (j : Json) : R Json := do
+  let entries ← getList (fun e => do
+    let n ← getStr e "name"
+    let id ← getOpt asInt e "id"
+    pure (n, id)) j "entries"
+  let names := entries.map (·.1)
+  let read : Str → Option Int := fun n => (entries.find? (fun e => e.1 == n)).bind (·.2)
+  let out := dirSource sortNames names read some
+  return jObj [("yields", jList jInt out), ("order", jList jStr (sortNames names))]
+
 end Gtfs.DJournal
